@@ -160,6 +160,20 @@ Definition c02_must_drop (s : fw) (i : interest) : bool :=
     end
   end.
 
+(* which rule drops it (for the coverage statistics): 0 none, 1 unknown face, 2 hop limit, 3 scope, 4 no nonce, 5 dead nonce, 6 duplicate *)
+Definition c02_drop_reason (s : fw) (i : interest) : N :=
+  match get_face (faces s) (i_face i) with
+  | None => 1
+  | Some inf =>
+    if match i_hop i with Some 0 => true | _ => false end then 2
+    else if negb (f_local inf) && spec_localhost (i_name i) then 3
+    else match i_nonce i with
+         | None => 4
+         | Some x => if dnl_has (dnl s) (i_name i) x then 5
+                     else if existsb (fun r => negb (ir_face r =? i_face i) && (ir_nonce r =? x)) (c02_ins s i) then 6 else 0
+         end
+  end.
+
 (* a usable next hop: the face exists, is not the (non-ad-hoc) arrival face, may carry the hop limit and the scope, and
    is not a downstream of the same pending Interest (consumer-chosen next hops are not subject to the last rule) *)
 Definition c02_usable (s : fw) (i : interest) (h : nexthop) : bool :=
